@@ -18,6 +18,8 @@ type Stream struct {
 	werr    error
 	werrAt  int // fail the n-th write (0-based) when >= 0
 	nwrites int
+	// tornAt: the n-th write (0-based) delivers only half of its bytes and fails; later writes work
+	tornAt int
 }
 
 var _ wt.Stream = (*Stream)(nil)
@@ -25,7 +27,7 @@ var _ wt.Stream = (*Stream)(nil)
 // StreamPipe returns two connected streams.
 func StreamPipe() (*Stream, *Stream) {
 	a, b := Pipe()
-	return &Stream{Conn: a, werrAt: -1}, &Stream{Conn: b, werrAt: -1}
+	return &Stream{Conn: a, werrAt: -1, tornAt: -1}, &Stream{Conn: b, werrAt: -1, tornAt: -1}
 }
 
 func (s *Stream) Write(p []byte) (int, error) {
@@ -35,10 +37,28 @@ func (s *Stream) Write(p []byte) (int, error) {
 		s.mu.Unlock()
 		return 0, err
 	}
+	if s.tornAt >= 0 && s.nwrites == s.tornAt {
+		// a write deadline that expires half-way: part of the bytes are on the wire
+		s.nwrites++
+		s.tornAt = -1
+		half := p[:len(p)/2]
+		s.Writes = append(s.Writes, append([]byte(nil), half...))
+		s.mu.Unlock()
+		s.Conn.Write(half)
+		return len(half), ErrTimeout
+	}
 	s.nwrites++
 	s.Writes = append(s.Writes, append([]byte(nil), p...))
 	s.mu.Unlock()
 	return s.Conn.Write(p)
+}
+
+// TearWrite makes the n-th write from now (0-based) deliver half of its bytes and fail with a
+// timeout; the stream stays usable afterwards.
+func (s *Stream) TearWrite(n int) {
+	s.mu.Lock()
+	s.tornAt = s.nwrites + n
+	s.mu.Unlock()
 }
 
 // FailWritesFrom makes the n-th and later writes fail with err.
